@@ -272,23 +272,30 @@ def run_neutral(spec, res):
             terminal = ("OXT" in na) or ("H2" in na and ra_[0]["resn"] not in ("WAT", "HOH")) or ("H3" in na) or \
                 ("H2" in nb and rb_[0]["resn"] not in ("WAT", "HOH")) or ("HO" in nb)
             if not terminal:
+                rn = ra_[0]["resn"][-3:]
                 polar_h = {"SER": {"HG"}, "THR": {"HG1"}, "TYR": {"HH"}, "CYS": {"HG"}, "WAT": {"H1", "H2"},
-                           "HOH": {"H1", "H2"}}.get(ra_[0]["resn"][-3:], set())
-                only_coords = len(ra_) == len(rb_) and all(
-                    (x["name"], x["qs"], x["rs"]) == (y["name"], y["qs"], y["rs"]) for x, y in zip(ra_, rb_))
-                changed = [x["name"] for x, y in zip(ra_, rb_) if (x["xs"], x["ys"], x["zs"]) != (y["xs"], y["ys"], y["zs"])] \
-                    if only_coords else None
+                           "HOH": {"H1", "H2"}}.get(rn, set())
+                group = {"ASN": {"OD1", "ND2", "HD21", "HD22"}, "GLN": {"OE1", "NE2", "HE21", "HE22"},
+                         "ASH": {"OD1", "OD2", "HD1", "HD2"}, "GLH": {"OE1", "OE2", "HE1", "HE2"}}.get(rn, set())
+                da = {x["name"]: (x["xs"], x["ys"], x["zs"], x["qs"], x["rs"]) for x in ra_}
+                db = {x["name"]: (x["xs"], x["ys"], x["zs"], x["qs"], x["rs"]) for x in rb_}
+                differing = {n for n in set(da) | set(db) if da.get(n) != db.get(n)}
+                coords_only = all(n in da and n in db and da[n][3:] == db[n][3:] for n in differing)
                 diff = next(((x["line"], y["line"]) for x, y in zip(ra_, rb_)
                              if (x["name"], x["xs"], x["ys"], x["zs"], x["qs"], x["rs"]) !=
-                             (y["name"], y["xs"], y["ys"], y["zs"], y["qs"], y["rs"])), ("", "")) if len(ra_) == len(rb_) \
-                    else ("", "")
-                if only_coords and changed and set(changed) <= polar_h:
-                    res.violate("neutral/neighbouring-polar-hydrogen-reoriented", f"{changed} of non-terminal "
-                                f"{ra_[0]['resn']} {ra_[0]['resi']} moved (names, charges, radii unchanged): {diff[0]!r} -> "
-                                f"{diff[1]!r}", **wit)
+                             (y["name"], y["xs"], y["ys"], y["zs"], y["qs"], y["rs"])), ("", ""))
+                if differing and differing <= polar_h and coords_only:
+                    key = "neutral/neighbouring-polar-hydrogen-reoriented"
+                elif rn in ("HIS", "HID", "HIE", "HIP", "HSD", "HSE", "HSP") and \
+                        {n for n in differing if n in ("N", "CA", "C", "O") and da.get(n, (0, 0, 0))[:3] != db.get(n, (1, 1, 1))[:3]} == set():
+                    key = "neutral/neighbouring-histidine-tautomer-or-flip-responds"     # no backbone atom moved
+                elif group and differing <= group and (rn in ("ASH", "GLH") or coords_only):
+                    key = "neutral/neighbouring-carboxylic-or-amide-group-responds"
                 else:
-                    res.violate("neutral/non-terminal-residue-changed", f"residue {ra_[0]['resn']} {ra_[0]['resi']} is not "
-                                f"chain-terminal but its lines differ: {diff[0]!r} -> {diff[1]!r}", **wit)
+                    key = "neutral/non-terminal-residue-changed"
+                res.violate(key, f"non-terminal {ra_[0]['resn']} {ra_[0]['resi']}: atoms {sorted(differing)} differ "
+                            f"({'coordinates only' if coords_only else 'also names/charges'}): {diff[0]!r} -> {diff[1]!r}",
+                            **wit)
     ta, tb = sum(x["q"] for x in a), sum(x["q"] for x in b)
     if abs((tb - ta) - shift_expected) > 1e-3 + 6e-5 * len(a):
         res.violate("neutral/total-shift", f"total {ta:+.4f} -> {tb:+.4f}, termini actually neutralised predict "
